@@ -36,8 +36,8 @@ structure CopyOk (dst : Cbuf) (bs : List UInt8) (r : Int × Nat × Cbuf) : Prop 
   whole : whole r.2.2 = Spec.lastN r.2.2.size (whole dst ++ bs.take r.1.toNat)
   ret : r.1 = -1 ∨ (0 ≤ r.1 ∧ r.1.toNat ≤ bs.length)
 
-theorem copier_refines {src dst : Cbuf} (hd : Inv dst) (len0 : Nat) :
-    CopyOk dst ((contents src).take len0) (copier src dst len0) := by
+theorem copier_refines {src dst : Cbuf} (hd : Inv dst) (len0 : Nat) (pol : Policy := chunkPolicy) [Admissible pol] :
+    CopyOk dst ((contents src).take len0) (copier src dst len0 pol) := by
   have hcs := contents_length src
   generalize hbs : (contents src).take len0 = bs
   have hbl : bs.length = min len0 src.used := by rw [← hbs]; simp [hcs]
@@ -52,9 +52,9 @@ theorem copier_refines {src dst : Cbuf} (hd : Inv dst) (len0 : Nat) :
   · simp only [h0, if_false]
     have hpos : 0 < bs.length := by omega
     -- the same growth step and the same effective length as a `cbuf_write` of `bs`
-    have hg := maybeGrow_ok hd bs.length
-    have hgw := maybeGrow_whole hd bs.length
-    generalize maybeGrow dst bs.length = p at hg hgw
+    have hg := maybeGrow_ok hd bs.length pol
+    have hgw := maybeGrow_whole hd bs.length pol
+    generalize maybeGrow dst bs.length pol = p at hg hgw
     obtain ⟨c1, nfree⟩ := p
     simp only at hg hgw ⊢
     have hci := hg.inv
@@ -158,15 +158,33 @@ end PdshVerif.Cbuf
 namespace PdshVerif.Cbuf
 
 theorem absR_eq_of_write {dst d' : Cbuf} (hd : Inv dst) (hi' : Inv d') (acc : List UInt8)
-    (h : whole d' = Spec.lastN d'.size (whole dst ++ acc)) :
-    ({ f := abs d', hist := Spec.histAfterWrite (absR dst) acc (abs d') } : Spec.RFifo) = absR d' := by
-  rw [← hist_write hd hi' acc h]; rfl
+    (h : whole d' = Spec.lastN d'.size (whole dst ++ acc)) (phys : Nat)
+    (hw : d'.gotWrap = Spec.wrappedAfterWrite (absR dst) phys (abs d')) :
+    ({ f := abs d', hist := Spec.histAfterWrite (absR dst) acc (abs d'),
+       wrapped := Spec.wrappedAfterWrite (absR dst) phys (abs d') } : Spec.RFifo) = absR d' := by
+  rw [← hist_write hd hi' acc h, ← hw]; rfl
 
-theorem copy_refines {src dst : Cbuf} (hd : Inv dst) (len : Int) :
-    Spec.copy (absR src) (absR dst) len (copy src dst len).2.2.size =
-      some ((copy src dst len).1, (copy src dst len).2.1, absR (copy src dst len).2.2) ∧
-    Inv (copy src dst len).2.2 ∧
-    ((copy src dst len).1 = -1 ∨ (0 ≤ (copy src dst len).1 ∧ (copy src dst len).1.toNat ≤ src.used)) := by
+/-- nothing stored: the flag stays -/
+theorem wrapped_zero {dst : Cbuf} (hd : Inv dst) (k : Nat) (hk : k = 0) :
+    dst.gotWrap = Spec.wrappedAfterWrite (absR dst) k (abs dst) := by
+  subst hk
+  unfold Spec.wrappedAfterWrite
+  simp only [absR_wrapped, absR_hist, absR_f, abs_q, abs_size]
+  exact (wrapped_unchanged hd dst.size (Nat.le_refl _)).symm
+
+/-- `cbuf_copier` in the specification's terms -/
+theorem copier_flag {src dst : Cbuf} (hd : Inv dst) (len0 : Nat) (pol : Policy) [Admissible pol]
+    (r : Int × Nat × Cbuf) (hr : copier src dst len0 pol = r) :
+    r.2.2.gotWrap = Spec.wrappedAfterWrite (absR dst) (min r.1.toNat (abs r.2.2).size) (abs r.2.2) := by
+  unfold Spec.wrappedAfterWrite
+  simp only [absR_wrapped, absR_hist, absR_f, abs_q, abs_size, hist_length, contents_length]
+  exact copier_gotWrap' hd len0 pol r hr
+
+theorem copy_refines {src dst : Cbuf} (hd : Inv dst) (len : Int) (pol : Policy := chunkPolicy) [Admissible pol] :
+    Spec.copy (absR src) (absR dst) len (copy src dst len pol).2.2.size =
+      some ((copy src dst len pol).1, (copy src dst len pol).2.1, absR (copy src dst len pol).2.2) ∧
+    Inv (copy src dst len pol).2.2 ∧
+    ((copy src dst len pol).1 = -1 ∨ (0 ≤ (copy src dst len pol).1 ∧ (copy src dst len pol).1.toNat ≤ src.used)) := by
   have hcs := contents_length src
   unfold copy Spec.copy
   by_cases h : len < -1
@@ -182,12 +200,13 @@ theorem copy_refines {src dst : Cbuf} (hd : Inv dst) (len : Int) :
     rw [hbs]
     have hzero : ∀ bs : List UInt8, bs = [] →
         (Spec.write (abs dst) bs dst.size).map (fun x : Int × Nat × Spec.Fifo =>
-          (x.1, x.2.1, ({ f := x.2.2, hist := Spec.histAfterWrite (absR dst) (bs.take x.1.toNat) x.2.2 } : Spec.RFifo))) =
+          (x.1, x.2.1, ({ f := x.2.2, hist := Spec.histAfterWrite (absR dst) (bs.take x.1.toNat) x.2.2,
+                          wrapped := Spec.wrappedAfterWrite (absR dst) (min x.1.toNat x.2.2.size) x.2.2 } : Spec.RFifo))) =
         some ((0 : Int), 0, absR dst) := by
       intro bs hb
       subst hb
       simp only [Spec.write, List.length_nil, if_true, abs_size, Option.map_some, Int.toNat_zero, List.take_zero]
-      rw [absR_eq_of_write hd hd [] (whole_unchanged hd)]
+      rw [absR_eq_of_write hd hd [] (whole_unchanged hd) (min 0 dst.size) (wrapped_zero hd _ (by omega))]
     by_cases h0 : len = 0
     · subst h0
       simp only [if_true]
@@ -197,15 +216,16 @@ theorem copy_refines {src dst : Cbuf} (hd : Inv dst) (len : Int) :
     · simp only [h0, if_false]
       by_cases hl : lenFd src len > 0
       · simp only [hl, if_true]
-        have hc := copier_refines (src := src) hd (lenFd src len)
-        generalize copier src dst (lenFd src len) = r at hc
+        have hc := copier_refines (src := src) hd (lenFd src len) pol
+        have hfl := copier_flag (src := src) hd (lenFd src len) pol _ rfl
+        generalize copier src dst (lenFd src len) pol = r at hc hfl
         obtain ⟨r1, r2, r3⟩ := r
         obtain ⟨c1, c2, c3, c4⟩ := hc
-        simp only at c1 c2 c3 c4 ⊢
+        simp only at c1 c2 c3 c4 hfl ⊢
         refine ⟨?_, c1, ?_⟩
         · rw [c2]
           simp only [Option.map_some]
-          rw [absR_eq_of_write hd c1 _ c3]
+          rw [absR_eq_of_write hd c1 _ c3 _ hfl]
         · rcases c4 with c4 | ⟨c4, c5⟩
           · exact Or.inl c4
           · refine Or.inr ⟨c4, ?_⟩
@@ -219,16 +239,17 @@ theorem copy_refines {src dst : Cbuf} (hd : Inv dst) (len : Int) :
           rw [this]; rfl
         exact hzero _ this
 
-theorem move_refines {src dst : Cbuf} (hs : Inv src) (hd : Inv dst) (len : Int) :
-    Spec.move (absR src) (absR dst) len (move src dst len).2.2.2.size =
-      some ((move src dst len).1, (move src dst len).2.1, absR (move src dst len).2.2.1,
-        absR (move src dst len).2.2.2) ∧
-    Inv (move src dst len).2.2.1 ∧ Inv (move src dst len).2.2.2 := by
+theorem move_refines {src dst : Cbuf} (hs : Inv src) (hd : Inv dst) (len : Int)
+    (pol : Policy := chunkPolicy) [Admissible pol] :
+    Spec.move (absR src) (absR dst) len (move src dst len pol).2.2.2.size =
+      some ((move src dst len pol).1, (move src dst len pol).2.1, absR (move src dst len pol).2.2.1,
+        absR (move src dst len pol).2.2.2) ∧
+    Inv (move src dst len pol).2.2.1 ∧ Inv (move src dst len pol).2.2.2 := by
   -- `cbuf_move` in terms of `cbuf_copy`
-  have hm : move src dst len =
-      ((copy src dst len).1, (copy src dst len).2.1,
-        (if (copy src dst len).1 > 0 then dropper src (copy src dst len).1.toNat else src),
-        (copy src dst len).2.2) := by
+  have hm : move src dst len pol =
+      ((copy src dst len pol).1, (copy src dst len pol).2.1,
+        (if (copy src dst len pol).1 > 0 then dropper src (copy src dst len pol).1.toNat else src),
+        (copy src dst len pol).2.2) := by
     unfold move copy
     by_cases h : len < -1
     · simp [h]
@@ -239,13 +260,13 @@ theorem move_refines {src dst : Cbuf} (hs : Inv src) (hd : Inv dst) (len : Int) 
         by_cases hl : lenFd src len > 0
         · simp only [hl, if_true]
         · simp only [hl, if_false]; simp
-  obtain ⟨c1, c2, c3⟩ := copy_refines (src := src) hd len
+  obtain ⟨c1, c2, c3⟩ := copy_refines (src := src) hd len pol
   rw [hm]
   simp only
   unfold Spec.move
   rw [c1]
   simp only [Option.map_some, absR_f, abs_q, absR_hist]
-  generalize (copy src dst len).1 = n at c3 ⊢
+  generalize (copy src dst len pol).1 = n at c3 ⊢
   have hle : n.toNat ≤ src.used := by
     rcases c3 with c | ⟨_, c⟩
     · subst c; exact Nat.zero_le _
@@ -258,13 +279,16 @@ theorem move_refines {src dst : Cbuf} (hs : Inv src) (hd : Inv dst) (len : Int) 
     have hh := hist_consume hs hi' hsc (by simp [dropper])
     have hq : abs (dropper src n.toNat) = { abs src with q := (contents src).drop n.toNat } := abs_dropper src _ hle
     have : absR (dropper src n.toNat) =
-        { f := { abs src with q := (contents src).drop n.toNat }, hist := hist src ++ (contents src).take n.toNat } := by
+        { f := { abs src with q := (contents src).drop n.toNat }, hist := hist src ++ (contents src).take n.toNat,
+          wrapped := src.gotWrap } := by
       simp only [absR, hh, hq]
       unfold Spec.histAfterConsume
       simp only [absR_hist, absR_f, abs_q, contents_length, List.length_drop]
       have e : src.used - (src.used - n.toNat) = n.toNat := by omega
       rw [e]
+      rfl
     rw [this]
+    rfl
   · simp only [hn, if_false]
     refine ⟨?_, hs, c2⟩
     have : n.toNat = 0 := by omega
@@ -279,9 +303,9 @@ def absR2 (s : Cbuf × Cbuf) : Spec.RFifo × Spec.RFifo := (absR s.1, absR s.2)
 
 def Inv2 (s : Cbuf × Cbuf) : Prop := Inv s.1 ∧ Inv s.2
 
-theorem step2_refines {s : Cbuf × Cbuf} (hi : Inv2 s) (op : Op2) :
-    stepS2 (absR2 s) op (stepM2 s op).1.ret (sel (stepM2 s op).2 op.target).size =
-      some ((stepM2 s op).1, absR2 (stepM2 s op).2) ∧ Inv2 (stepM2 s op).2 := by
+theorem step2_refines {s : Cbuf × Cbuf} (hi : Inv2 s) (op : Op2) (pol : Policy := chunkPolicy) [Admissible pol] :
+    stepS2 (absR2 s) op (stepM2 s op pol).1.ret (sel (stepM2 s op pol).2 op.target).size =
+      some ((stepM2 s op pol).1, absR2 (stepM2 s op pol).2) ∧ Inv2 (stepM2 s op pol).2 := by
   obtain ⟨a, b⟩ := s
   obtain ⟨h1, h2⟩ := hi
   simp only at h1 h2
@@ -289,41 +313,42 @@ theorem step2_refines {s : Cbuf × Cbuf} (hi : Inv2 s) (op : Op2) :
   | on i op =>
     cases i with
     | false =>
-      obtain ⟨k1, k2⟩ := stepR_refines h1 op
+      obtain ⟨k1, k2⟩ := stepR_refines h1 op pol
       simp only [stepS2, stepM2, sel, upd, absR2, Op2.target, Bool.false_eq_true, if_false, k1, Option.map_some]
       exact ⟨trivial, k2, h2⟩
     | true =>
-      obtain ⟨k1, k2⟩ := stepR_refines h2 op
+      obtain ⟨k1, k2⟩ := stepR_refines h2 op pol
       simp only [stepS2, stepM2, sel, upd, absR2, Op2.target, if_true, k1, Option.map_some]
       exact ⟨trivial, h1, k2⟩
   | copy fs len =>
     cases fs with
     | false =>
-      obtain ⟨k1, k2, _⟩ := copy_refines (src := a) h2 len
+      obtain ⟨k1, k2, _⟩ := copy_refines (src := a) h2 len pol
       simp only [stepS2, stepM2, sel, upd, absR2, Op2.target, Bool.not_false, Bool.false_eq_true, if_false, if_true,
         k1, Option.map_some]
       exact ⟨trivial, h1, k2⟩
     | true =>
-      obtain ⟨k1, k2, _⟩ := copy_refines (src := b) h1 len
+      obtain ⟨k1, k2, _⟩ := copy_refines (src := b) h1 len pol
       simp only [stepS2, stepM2, sel, upd, absR2, Op2.target, Bool.not_true, Bool.false_eq_true, if_false, if_true,
         k1, Option.map_some]
       exact ⟨trivial, k2, h2⟩
   | move fs len =>
     cases fs with
     | false =>
-      obtain ⟨k1, k2, k3⟩ := move_refines h1 h2 len
+      obtain ⟨k1, k2, k3⟩ := move_refines h1 h2 len pol
       simp only [stepS2, stepM2, sel, upd, absR2, Op2.target, Bool.not_false, Bool.false_eq_true, if_false, if_true,
         k1, Option.map_some]
       exact ⟨trivial, k2, k3⟩
     | true =>
-      obtain ⟨k1, k2, k3⟩ := move_refines h2 h1 len
+      obtain ⟨k1, k2, k3⟩ := move_refines h2 h1 len pol
       simp only [stepS2, stepM2, sel, upd, absR2, Op2.target, Bool.not_true, Bool.false_eq_true, if_false, if_true,
         k1, Option.map_some]
       exact ⟨trivial, k3, k2⟩
 
-def runM2 (s : Cbuf × Cbuf) : List Op2 → List Out × (Cbuf × Cbuf)
+def runM2 (s : Cbuf × Cbuf) (ops : List Op2) (pol : Policy := chunkPolicy) : List Out × (Cbuf × Cbuf) :=
+  match ops with
   | [] => ([], s)
-  | op :: ops => let (o, s') := stepM2 s op; let (os, s'') := runM2 s' ops; (o :: os, s'')
+  | op :: ops => let (o, s') := stepM2 s op pol; let (os, s'') := runM2 s' ops pol; (o :: os, s'')
 
 def acceptS2 (r : Spec.RFifo × Spec.RFifo) : List (Op2 × Out × Nat) → Option (Spec.RFifo × Spec.RFifo)
   | [] => some r
@@ -333,17 +358,40 @@ def acceptS2 (r : Spec.RFifo × Spec.RFifo) : List (Op2 × Out × Nat) → Optio
     | none => none
 
 /-- the annotated history of the model: operation, answer, capacity of the buffer written to -/
-def traceM2 (s : Cbuf × Cbuf) : List Op2 → List (Op2 × Out × Nat)
+def traceM2 (s : Cbuf × Cbuf) (ops : List Op2) (pol : Policy := chunkPolicy) : List (Op2 × Out × Nat) :=
+  match ops with
   | [] => []
-  | op :: ops => (op, (stepM2 s op).1, (sel (stepM2 s op).2 op.target).size) :: traceM2 (stepM2 s op).2 ops
+  | op :: ops =>
+    (op, (stepM2 s op pol).1, (sel (stepM2 s op pol).2 op.target).size) :: traceM2 (stepM2 s op pol).2 ops pol
 
-theorem run2_refines {s : Cbuf × Cbuf} (hi : Inv2 s) (ops : List Op2) :
-    acceptS2 (absR2 s) (traceM2 s ops) = some (absR2 (runM2 s ops).2) ∧ Inv2 (runM2 s ops).2 := by
+theorem run2_refines {s : Cbuf × Cbuf} (hi : Inv2 s) (ops : List Op2) (pol : Policy := chunkPolicy) [Admissible pol] :
+    acceptS2 (absR2 s) (traceM2 s ops pol) = some (absR2 (runM2 s ops pol).2) ∧ Inv2 (runM2 s ops pol).2 := by
   induction ops generalizing s with
   | nil => exact ⟨rfl, hi⟩
   | cons op ops ih =>
-    obtain ⟨h1, h2⟩ := step2_refines hi op
+    obtain ⟨h1, h2⟩ := step2_refines hi op pol
     simp only [traceM2, acceptS2, h1, if_true, runM2]
+    exact ih h2
+
+/-- two buffers, a different admissible policy at every step -/
+def runM2p (s : Cbuf × Cbuf) : List (APolicy × Op2) → List Out × (Cbuf × Cbuf)
+  | [] => ([], s)
+  | (p, op) :: ops => let (o, s') := stepM2 s op p.pol; let (os, s'') := runM2p s' ops; (o :: os, s'')
+
+def traceM2p (s : Cbuf × Cbuf) : List (APolicy × Op2) → List (Op2 × Out × Nat)
+  | [] => []
+  | (p, op) :: ops =>
+    (op, (stepM2 s op p.pol).1, (sel (stepM2 s op p.pol).2 op.target).size) :: traceM2p (stepM2 s op p.pol).2 ops
+
+theorem run2p_refines {s : Cbuf × Cbuf} (hi : Inv2 s) (ops : List (APolicy × Op2)) :
+    acceptS2 (absR2 s) (traceM2p s ops) = some (absR2 (runM2p s ops).2) ∧ Inv2 (runM2p s ops).2 := by
+  induction ops generalizing s with
+  | nil => exact ⟨rfl, hi⟩
+  | cons pop ops ih =>
+    obtain ⟨p, op⟩ := pop
+    haveI := p.adm
+    obtain ⟨h1, h2⟩ := step2_refines hi op p.pol
+    simp only [traceM2p, acceptS2, h1, if_true, runM2p]
     exact ih h2
 
 end PdshVerif.Cbuf
